@@ -12,7 +12,7 @@
    (cases outside it are not generated: the model does not describe
    AppendFloat there). *)
 From Coq Require Import List Arith Bool Ascii String ZArith NArith Floats.SpecFloat.
-From Verif Require Import Util Ints Strconv Floats Assign AssignSpec.
+From Verif Require Import Util Ints Strconv Floats AssignVal Assign AssignSpec.
 Import ListNotations.
 Local Open Scope string_scope.
 
